@@ -178,6 +178,20 @@ def reference_bombs():
         out.append(("self-reference:alias-list", "type A = List<A>; type B = %s; tx t() {}" % "Map<A,A>"))
         out.append(("self-reference:type-pair", "type T { %s } type U { %s } type A = Bytes; tx t() {}"
                     % (" ".join("f%d: U," % i for i in range(k)), fields)))
+        # alias cycles of length k-ish, reached directly and through aliases that lead into them, named by a constructor,
+        # a parameter type, a datum_is and a record field
+        cyc = min(k, 3)
+        names = ["A%d" % i for i in range(cyc)]
+        cycle = " ".join("type %s = %s;" % (names[i], names[(i + 1) % cyc]) for i in range(cyc))
+        lead = "type C = A0; type D = C;"
+        for via in ("A0", "C", "D"):
+            out.append(("alias-cycle:constructor", "%s %s party P; tx t() { output { to: P, amount: Ada(1), datum: %s { x: 1, }, } }" % (cycle, lead, via)))
+            out.append(("alias-cycle:param", "%s %s tx t(p: %s) {}" % (cycle, lead, via)))
+            out.append(("alias-cycle:datum_is", "%s %s party P; tx t() { input i { from: P, datum_is: %s, } }" % (cycle, lead, via)))
+            out.append(("alias-cycle:field", "%s %s type R { f: %s, } tx t(r: R) { locals { z: r.f, } }" % (cycle, lead, via)))
+        # a chain of aliases ending in a type that mentions itself k times: every pass resolves one more alias
+        chain = " ".join("type B%d = %s;" % (i, "B%d" % (i - 1) if i else "T") for i in range(4 * k))
+        out.append(("alias-chain:self-type", "type T { %s } %s tx t(p: B%d) {}" % (fields, chain, 4 * k - 1)))
         out.append(("self-reference:output", "party P; tx t() { input a { from: P, min_amount: Ada(1), } output b { to: P, amount: %s, } }"
                     % "+".join(["b"] * k)))
     return out
@@ -186,7 +200,7 @@ def reference_bombs():
 def sig_of(b):
     import re
     d = b["detail"]
-    if b["why"] == "panic" and d.get("site") == "process" and str(b.get("_origin", "")).startswith("self-reference:"):
+    if b["why"] == "panic" and d.get("site") == "process" and str(b.get("_origin", "")).startswith(("self-reference:", "alias-cycle:", "alias-chain:")):
         # the process ran out of time or memory; which of the two depends on the machine
         return f"panic|analyze|unbounded|{b['_origin']}"
     if b["why"] == "panic":
